@@ -6,6 +6,21 @@ ALL = ["C%02d" % i for i in range(1, 21)]
 
 # id -> dict(level_text, level_note, technique, design_ref)
 CLAIMED = {
+ "C01": dict(
+   text="Conservation ledger over a full in-process Watchexec in real time: 1-4 producer tasks send uniquely numbered synthetic events (priority low..urgent, table-driven filter verdict pass/reject/error, tag shapes incl. path, signal, keyboard EOF and empty), handler sync/async taking 0-80 ms, queue size 1/2/8/4096, gaps placed relative to the throttle. Every event owed (send returned Ok) that passes, is urgent or is empty is delivered exactly once; rejected/errored ones never; nothing twice; urgent and empty events never reach the filter and others at most once; no empty batch. All assertions are about what was delivered, not when.",
+   note="The quit is requested only once everything owed has arrived (or 1.5 s + 3 x throttle have passed); a failure must reproduce 3 times to count. fs-event -> queue conversion is exercised with the mock watcher in C15's watcher-fault leg; the real inotify/poll leg is not built.",
+   technique="proptest generated producer schedules with a conservation-ledger invariant (real time, schedule-independent oracle)",
+   ref="DESIGN.md §3 C01"),
+ "C02": dict(
+   text="Generated arrival patterns (single event, burst inside the window, straddling its end, continuous accepted stream for 3T, continuous rejected/erroring stream for 6T after one accepted event, urgent event inside a 0.6-2 s window, zero throttle, throttle changed inside a window or while idle, mixed priorities with slow handlers) with producer-side before/after stamps and handler entry stamps. Always asserted (one-sided): a batch without an urgent member is never handed over earlier than the throttle in effect after its first event was sent. With an idle handler and 250 ms slack: bounded delay after the window (incl. under rejected streams: no starvation), urgent flush, zero throttle waits for nothing; for T >= 100 ms: events sent well inside the window are not split into a later batch.",
+   note="Upper bounds are real-time assertions: 250 ms slack (jitter observed < 5 ms), must reproduce 3 times; counted as timing anomaly otherwise.",
+   technique="proptest generated arrival patterns with one-sided and slack-bounded timing oracles (real time)",
+   ref="DESIGN.md §3 C02"),
+ "C15": dict(
+   text="C01 scenarios with injected filter errors and error bursts, error queue size 1/2/64, error handler that ignores / is slow / replaces itself / elevates on the j-th error / raises a critical External on the j-th: each injected error reaches the handler exactly once with its identity, the rest of the ledger still balances and main ends Ok unless escalated, in which case main ends with exactly that Elevated (wrapping error j) or External error; handlers replacing themselves (and the path set) from inside neither deadlock nor affect the invocation in progress. Watcher-origin faults through the mock watcher (H1): synthetic notify events and errors, event-queue overflow under a slow handler, failing watch() on 1-13 of the configured paths with a small error queue and slow error handler: every event delivered once or reported once (never both; never neither when the error queue cannot be full), watcher errors at most once, exactly one PathAdd error per failed path naming it, other paths still registered.",
+   note="Real time. One open known finding (schedule-dependent, multi-thread runtime): escalation masked by ErrorChannelSend.",
+   technique="proptest fault-sequence generation with exactly-once ledgers (real time) + mock-watcher fault injection",
+   ref="DESIGN.md §3 C15"),
  "C13": dict(
    text="The production sources::fs::worker driven on a paused current-thread runtime with a recording, fault-injecting notify::Watcher substituted through hook H1. Bounded-exhaustive over all sequences of a 12-op alphabet (2-path universe: set/clear/recursion-mode flip, kind change, watch/unwatch failure, during-apply path and kind change, irrelevant change) up to length 3 (quick) / 4 (thorough) x {settled, burst}, then random sequences over a 4-path universe. 'During-apply' ops make a change land inside the worker's read-apply window deterministically (the mock performs it from within the k-th watch/unwatch call). After changes stop: registered set with modes == configured set (minus paths whose latest attempt was failed by injection), active kind == configured kind, empty set releases the watcher, one RuntimeError per failed attempt naming the path, no unwatch of an unregistered path; after a retry round the set is exact.",
    note="Mock watcher instead of inotify/poll (behavioural variant with real files not built). Handler-reconfiguration (no deadlock, old invocation unaffected) is checked in C15's in-process runner. One open known finding: recursion-mode flip after a failed unwatch (bookkeeping keyed on (path, mode)).",
